@@ -34,8 +34,8 @@ var propStandins = map[string][]Standin{
 	}},
 	"C10": {{
 		Name: "view-stability", Pkg: "internal/index/manager", TestFile: "view_standin_test.go", TestName: "TestC10Standin", OutEnv: "C10_OUT",
-		EnvQuick: []string{"C10_HISTORIES=25", "C10_LEN=12"}, EnvThorough: []string{"C10_HISTORIES=250", "C10_LEN=16"},
-		Bound:   "stability of a view over its lifetime (the copy-on-write discipline of every writer in the manager; only the enumeration kernel of a view is under contract): 25 (quick) / 250 (thorough) seeded histories of 12 / 16 manager calls out of AddTag (mark, tag, service with 6 definitions), mark add / mark delete, definition updates, imports of 4 more streams (up to 16), small imports of one new conversation in a capture of its own (up to 12; enough of them trigger merges that replace files a held view references), more data for an old small conversation alone in its capture, opening a view (at most 3 alive, a third of the histories start on an empty service), releasing a view; after every call a fresh view must still show every stream an earlier fresh view showed, with the same client endpoint (nothing reported processed disappears or changes identity), and every live view is asked again - all streams with byte counts, HasTag for every tag it knew when it was opened, and searches for and against each of these tags - and must answer exactly as it did when it was opened. Background jobs (tagging, merging) run as they come; their interleaving is not controlled",
+		EnvQuick: []string{"C10_HISTORIES=80", "C10_LEN=12"}, EnvThorough: []string{"C10_HISTORIES=600", "C10_LEN=16"},
+		Bound:   "stability of a view over its lifetime (the copy-on-write discipline of every writer in the manager; only the enumeration kernel of a view is under contract): 80 (quick) / 600 (thorough) seeded histories of 12 / 16 manager calls out of AddTag (mark, tag, service with 6 definitions), mark add / mark delete, definition updates, imports of 4 more streams (up to 16), small imports of one new conversation in a capture of its own (up to 12; enough of them trigger merges that replace files a held view references), more data for an old small conversation alone in its capture, opening a view (at most 3 alive, a third of the histories start on an empty service), releasing a view; after every call a fresh view must still show every stream an earlier fresh view showed, with the same client endpoint (nothing reported processed disappears or changes identity), and every live view is asked again - all streams with byte counts, HasTag for every tag it knew when it was opened, and searches for and against each of these tags - and must answer exactly as it did when it was opened. Background jobs (tagging, merging) run as they come; their interleaving is not controlled",
 		Timeout: 10 * time.Minute,
 	}},
 	"C13": {{
